@@ -171,14 +171,17 @@ Example rejections_example :
   match issue o5 claims5 with
   | Ok (payload, ds) =>
       let pres l hb := {| p_sig_ok := true; p_payload := payload; p_discs := l; p_hb := hb |} in
-      let city := {| d_e := 3; d_salt := [SKey "addr"; SKey "city"]; d_name := "city"; d_val := VStr "X" |} in
-      let forged := {| d_e := 3; d_salt := [SKey "addr"; SKey "city"]; d_name := "city"; d_val := VStr "Y" |} in
+      let city := mk 3 [SKey "addr"; SKey "city"] "city" (VStr "X") in
+      let forged := mk 3 [SKey "addr"; SKey "city"] "city" (VStr "Y") in
+      let retext := {| d_enc := 1; d_e := 3; d_salt := [SKey "addr"; SKey "city"]; d_name := "city"; d_val := VStr "X" |} in
       let addr := choose [[SKey "addr"]] ds in
       memd city ds = true /\
       is_ok (verify vo0 (pres (addr ++ [city]) None)) = true /\
       is_ok (verify vo0 (pres [city] None)) = false /\
       is_ok (verify vo0 (pres (addr ++ [forged]) None)) = false /\
       is_ok (verify vo0 (pres (addr ++ [city; city]) None)) = false /\
+      is_ok (verify vo0 (pres (addr ++ [retext]) None)) = false /\
+      is_ok (verify vo0 (pres (addr ++ [city; retext]) None)) = false /\
       is_ok (verify {| vo_required := true; vo_nonce := "n"; vo_aud := "" |}
                     (pres addr (Some {| hb_key := 1; hb_nonce := "m"; hb_aud := ""; hb_ok := true |}))) = false /\
       is_ok (verify {| vo_required := true; vo_nonce := "n"; vo_aud := "" |}
